@@ -23,6 +23,9 @@ type VerifWatch struct {
 type VerifRecorder struct {
 	Log [][3]string
 	Fwd UpdateListener
+	// Hook, when set, runs inside OnAdd / OnDelete after the call was forwarded (the executor
+	// uses it to close or create subscribers WHILE the watcher is dispatching a change).
+	Hook func()
 }
 
 func (r *VerifRecorder) OnAdd(kv KV) {
@@ -30,12 +33,18 @@ func (r *VerifRecorder) OnAdd(kv KV) {
 	if r.Fwd != nil {
 		r.Fwd.OnAdd(kv)
 	}
+	if r.Hook != nil {
+		r.Hook()
+	}
 }
 
 func (r *VerifRecorder) OnDelete(kv KV) {
 	r.Log = append(r.Log, [3]string{"del", kv.Key, kv.Val})
 	if r.Fwd != nil {
 		r.Fwd.OnDelete(kv)
+	}
+	if r.Hook != nil {
+		r.Hook()
 	}
 }
 
